@@ -198,7 +198,7 @@ def run_case(spec):
 def check(rep, tier, seed, specs=None, n_override=None):
     quick = tier == 'quick'
     if specs is None:
-        n = n_override or (3000 if quick else 100000)
+        n = n_override or (12000 if quick else 100000)
         specs = [{'seed': common.hash64('c13', 'fixed' if i < n // 2 else seed, i)} for i in range(n)]
     results, lost = common.shard_run('c13', specs, timeout_s=1200 if quick else 4 * 3600)
     rep.rule = ('generated record sets of every kind (SNV/INDEL/MNV, <DEL>/<INS>/<SUB>, <FUSION>, circRNA/ciRNA) written with an own writer '
